@@ -541,6 +541,19 @@ theorem persist_save_runs_outside_guard (c : Circ) (fuel : Nat) (sync saveRaises
         split <;> simp [runPersistPrims, hg, hact]
       · left; simp [runPersistPrims]
 
+/-- since the repair 2ca67fc (`_persist_event_active`): a wrapper call that is NESTED in another `event()` of the
+    same block (the chained transition requested by an FSM entry action, a zero-length timer) never saves --
+    the intermediate state it would see stays out of the storage; only the outermost call saves (the comment of
+    `persist_save_runs_outside_guard` about the chained-transition window describes the code before the repair) -/
+theorem persist_nested_call_never_saves (c : Circ) (fuel : Nat) (sync saveRaises : Bool) (p : PSt) (d : Nat)
+    (et : EType) (data : Data) (hn : p.nested = true) :
+    (persistEvent c fuel sync saveRaises p d et data).1.saves = p.saves := by
+  unfold persistEvent Gen.TrP2.eventActs
+  simp only [hn]
+  split
+  · split <;> simp [runPersistPrims]
+  · simp [runPersistPrims]
+
 /-- an exception of `super().event()` is re-raised unchanged (never swallowed), after persistence has been
     disabled when the simulation is no longer ready -/
 theorem persist_wrapper_reraises (c : Circ) (fuel : Nat) (sync saveRaises : Bool) (p : PSt) (d : Nat)
@@ -792,6 +805,9 @@ example : (initAll exWindow St.start).2 = .ret .none
     persistence disabled because the simulation was aborted) and on a handled event of `exWindow` (one save,
     with the guard released) -/
 def exPersistent : PSt := { st := exReady, persistent := true, saves := [] }
+
+/-- the hypothesis of `persist_nested_call_never_saves` is satisfiable -/
+example : ({ exPersistent with nested := true } : PSt).nested = true ∧ exPersistent.persistent = true := ⟨rfl, rfl⟩
 
 example :
     (persistEvent exLoop 4 true false exPersistent 0 (.name "a") []).2 = some (.exc .circuitError)
